@@ -5,7 +5,7 @@
    on what [mid] returns, which is why rounding or overflow of the mid-lines
    cannot lose a segment. *)
 From Coq Require Import Sorting.Permutation.
-From GJ Require Import Base Kernel Series SeriesSpec Index IndexExec QTreeProofs RTreeProofs CodecQProofs CodecRProofs IndexSeriesProofs Ring RingSpec KernelSpec IndexChoice.
+From GJ Require Import Base Kernel Series SeriesSpec Index IndexExec QTreeProofs RTreeProofs CodecQProofs CodecRProofs IndexSeriesProofs Ring RingSpec KernelSpec PipProofs IndexChoice IndexChoice2.
 
 (* quadtree built by successive inserts of items 0..n-1 (qtree.go:insert):
    a search reports exactly the items whose rectangle meets the query *)
@@ -127,6 +127,24 @@ Theorem C04_contains_segment_strict_ignores_indices : forall r sg resA resA' res
   fst resA = fst resA' -> fst resB = fst resB' ->
   fst (rcs_with r sg false resA resB) = fst (rcs_with r sg false resA' resB').
 Proof. exact rcs_strict_ignores_indices. Qed.
+(* ... and every order in which the candidates of the strip query are delivered yields a valid report, so
+   ringContainsSegment computed from point searches over differently ordered candidate lists (no index,
+   quadtree, R-tree) gives one answer; in index order it is the model *)
+Theorem C04_point_search_any_order_valid : forall r p allow l,
+  Permutation l (strip_search r (py p)) -> rect_contains_point (ring_rect r) p = true ->
+  valid_res r p allow (search_in_order r p allow l).
+Proof. exact any_order_valid. Qed.
+Theorem C04_contains_segment_any_candidate_order : forall r a b la la' lb lb',
+  meets_at_ends r ->
+  Permutation la (strip_search r (py a)) -> Permutation la' (strip_search r (py a)) ->
+  Permutation lb (strip_search r (py b)) -> Permutation lb' (strip_search r (py b)) ->
+  fst (rcs_with r (a, b) true (search_in_order r a true la) (search_in_order r b true lb)) =
+  fst (rcs_with r (a, b) true (search_in_order r a true la') (search_in_order r b true lb')).
+Proof. exact rcs_any_candidate_order. Qed.
+Theorem C04_index_order_is_the_model : forall r a b,
+  ring_contains_segment r (a, b) true =
+  rcs_with r (a, b) true (search_in_order r a true (strip_search r (py a))) (search_in_order r b true (strip_search r (py b))).
+Proof. exact rcs_index_order. Qed.
 Example C04_meets_at_ends_holds_somewhere : meets_at_ends (RS {| closed := true; pts := [(0,0);(4,0);(0,4)] |}).
 Proof. exact triangle_meets_at_ends. Qed.
 
@@ -142,3 +160,4 @@ Print Assumptions C04_rtree_counts.
 Print Assumptions C04_rtree_codec.
 Print Assumptions C04_rtree_built_shape.
 Print Assumptions C04_contains_segment_index_choice.
+Print Assumptions C04_contains_segment_any_candidate_order.
